@@ -25,9 +25,10 @@ def gen_cases(seed, tier):
             if d and d["type"] == "fixed": d["params"]["delay"] = rng.choice([0.0, 1e-3 * dt, 0.3 * dt, dt, 2.5 * dt, 0.5 * hor, 3 * hor + 1])
         c["family"] = "replay"; cases.append(c)
     # canonical family
-    for _ in range(40 if tier == "quick" else 400):
+    for _ in range(60 if tier == "quick" else 600):
         dt = rng.choice([0.25, 0.5, 1.0]); n_t = rng.randint(6, 14); T = [i * dt for i in range(n_t)]
-        dl = rng.choice([0.0, 0.2 * dt, dt, 2.0 * dt, 3.3 * dt, T[-1] + 5 * dt]); a0 = rng.randint(3, 10)
+        # incl. the band around the queue length n_t*dt = T[-1] + dt, where the slot index reaches the clamp (seeded change S_C10 / S_C20)
+        dl = rng.choice([0.0, 0.2 * dt, dt, 2.0 * dt, 3.3 * dt, T[-1] + 5 * dt, T[-1] + 0.6 * dt, T[-1] + dt, T[-1] + 1.4 * dt, T[-1] - 0.4 * dt]); a0 = rng.randint(3, 10)
         kind = rng.choice(["dssa", "dssa", "ssa", "vssa"])
         spec = {"species": ["A", "B"], "reactions": [{"reactants": ["A"], "products": [], "type": "massaction", "params": {"k": rng.choice([0.3, 0.8, 2.0])},
                                                        "delay": {"type": "fixed", "reactants": [], "products": ["B"], "params": {"delay": dl}}}],
